@@ -23,7 +23,7 @@ THEOREMS_BY_PROP = {
             "DepLogic.C02.atomPv3_good", "DepLogic.C02.atomImpl_good", "DepLogic.C02.inexact_never_merged", "DepLogic.C11.reversed_canonical_good"],
     "C03": ["DepLogic.C03.build_sound", "DepLogic.C03.build_sound_final", "DepLogic.M.sound_all", "DepLogic.M.singleSound"],
     "C07": ["DepLogic.C07.str_empty_any", "DepLogic.C07.items_sem", "DepLogic.C07.reparse_sound", "DepLogic.C07.reparse_sound_final",
-            "DepLogic.C07.items_ok", "DepLogic.C07.atom_text", "DepLogic.C07.seq_text", "DepLogic.C07.junction_text", "DepLogic.C07.nested_text", "DepLogic.C07.atomStr_toList", "DepLogic.C07.read_quote", "DepLogic.C07.quote_roundtrip", "DepLogic.C07.quote_shape",
+            "DepLogic.C07.items_ok", "DepLogic.C07.atom_text", "DepLogic.C07.seq_text", "DepLogic.C07.junction_text", "DepLogic.C07.nested_text", "DepLogic.C07.text_roundtrip_printable", "DepLogic.C07.str_reparse_final", "DepLogic.C07.atomStr_toList", "DepLogic.C07.read_quote", "DepLogic.C07.quote_roundtrip", "DepLogic.C07.quote_shape",
             "DepLogic.C07.atomOf_atomItem", "DepLogic.C03.build_sound"],
     "C12": ["DepLogic.C12.only_mentions", "DepLogic.C12.only_implied", "DepLogic.C12.only_same",
             "DepLogic.C12.exclude_mentions", "DepLogic.C12.exclude_implied", "DepLogic.C12.exclude_same_partial",
